@@ -55,6 +55,16 @@ def selectTargetIp : List String :=
   ["not self.config.agent_settings.target_ips", "self.target_ip = self.config.agent_settings.default_target_ip",
    "self.target_ip = random.choice(self.config.agent_settings.target_ips)"]
 
+/-- TAP003's settings validator and local-change knowledge update, as `Tap3.Cfg.knowledgeOk` / `Tap3.handleChangePw` model
+them: possible start nodes (`Cfg.startSet`); an account-change host needs only a password when it is the sole possible
+start node, otherwise user name, password and address (`Cfg.knows … needIp`); an ACL router always all three; a local
+password change keeps the other keys of the entry. -/
+def tap3Knowledge : List String :=
+  ["set(self.starting_nodes) if self.starting_nodes else {self.default_starting_node}",
+   "{'password'} if start_nodes == {host} else {'username', 'password', 'ip_address'}",
+   "required.get(acl.target_router, set()) | {'username', 'password', 'ip_address'}",
+   "{**known, 'username': username, 'password': password}"]
+
 /-- Every assignment to `actions_concluded` under game/agent/scripted_agents: (file, function, value).  One writer. -/
 def concludedWriters : List (String × String × String) := [("abstract_tap.py", "_tap_outcome_handler", "True")]
 
